@@ -56,6 +56,31 @@ def _axes(rng, dim=3):
     return [x * sa for x in a], [x * sb for x in b]
 
 
+def rotated_reference(Cin, voigt, axis1, axis2, dim):
+    """Kelvin-Mandel matrix of the fourth-order tensor whose material-basis matrix is Cin, in the global basis."""
+    pairs = [(0, 0), (1, 1), (2, 2), (1, 2), (0, 2), (0, 1)] if dim == 3 else [(0, 0), (1, 1), (0, 1)]
+    n = len(pairs)
+    f = np.array([1.0 if i == j else np.sqrt(2.0) for i, j in pairs])
+    Ckm = Cin * np.outer(f, f) if voigt else Cin
+    e1 = np.asarray(axis1, dtype=float)
+    e2 = np.asarray(axis2, dtype=float)
+    e1, e2 = e1 / np.linalg.norm(e1), e2 / np.linalg.norm(e2)
+    Q = np.column_stack([e1, e2, np.cross(e1, e2)])[:dim, :dim]
+    T = np.zeros((dim,) * 4)
+    for I, (i, j) in enumerate(pairs):
+        for J, (k, l) in enumerate(pairs):
+            v = Ckm[I, J] / (f[I] * f[J])
+            for a, b in {(i, j), (j, i)}:
+                for c, d in {(k, l), (l, k)}:
+                    T[a, b, c, d] = v
+    Tr = np.einsum("ia,jb,kc,ld,abcd->ijkl", Q, Q, Q, Q, T)
+    M = np.zeros((n, n))
+    for I, (i, j) in enumerate(pairs):
+        for J, (k, l) in enumerate(pairs):
+            M[I, J] = Tr[i, j, k, l] * f[I] * f[J]
+    return M
+
+
 def _spd(rng, n):
     A = rng.normal(size=(n, n))
     return (A @ A.T + n * np.eye(n)) * 10.0
@@ -221,6 +246,48 @@ class LawWorld(World):
         if not np.min(np.linalg.eigvalsh((C + np.swapaxes(C, -1, -2)) / 2)) > 0:
             raise Violation("law-not-positive-definite", f"{what}: smallest eigenvalue of C <= 0")
         ctx.checked()
+        if self.cfg["dim"] == 2 and self.kind != "Anisotropic":
+            # "the 2D laws are the plane-stress / plane-strain reductions of the 3D law": a 3D law of the same class with
+            # the same constants and axes, reduced in dense numpy (rows and columns 11, 22, 12 of C for plane strain, of
+            # S for plane stress) -- on the parameter sets the histories hold
+            try:
+                with ctx.sut():
+                    C3 = np.asarray(make_law(self.kind, dict(self.p, dim=3, planeStress=False)).C)
+            except SutError:
+                C3 = None
+            if C3 is not None and C3.shape[:-2] == C.shape[:-2]:
+                idx = np.array([0, 1, 5])
+                if self.p["planeStress"]:
+                    S3 = np.linalg.inv(C3)
+                    Cx = np.linalg.inv(S3[..., idx, :][..., :, idx])
+                else:
+                    Cx = C3[..., idx, :][..., :, idx]
+                if not refs.maxabs(np.asarray(C) - Cx) <= 1e-9 * scale:
+                    raise Violation("law-not-the-plane-reduction", f"{what}: the 2D law differs from the plane-{'stress' if self.p['planeStress'] else 'strain'} reduction of the 3D law with the same constants and axes: max|diff| {refs.maxabs(np.asarray(C) - Cx):.3e} (scale {scale:.3e})")
+                ctx.checked()
+                ctx.probe("plane_reduction_checked")
+        axk = {"TransverselyIsotropic": ("axis_l", "axis_t"), "Orthotropic": ("axis_1", "axis_2")}.get(self.kind)
+        if axk and np.ndim(C) == 2:
+            # the same constants with the material axes on the global ones give the material matrix; the law with axes
+            # (a1, a2) must be that matrix rotated as a fourth-order tensor (dense numpy)
+            try:
+                with ctx.sut():
+                    Cm = np.asarray(make_law(self.kind, dict(self.p, **{axk[0]: [1.0, 0.0, 0.0], axk[1]: [0.0, 1.0, 0.0]})).C)
+            except SutError:
+                Cm = None
+            if Cm is not None and np.ndim(Cm) == 2:
+                Cx = rotated_reference(Cm, False, self.p[axk[0]], self.p[axk[1]], self.cfg["dim"])
+                if not refs.maxabs(np.asarray(C) - Cx) <= 1e-9 * scale:
+                    raise Violation("law-not-the-rotated-tensor", f"{what}: C differs from the material matrix (same constants, axes on the global ones) rotated by Q = [e1 e2 e1 x e2] as a fourth-order tensor: max|diff| {refs.maxabs(np.asarray(C) - Cx):.3e} (scale {scale:.3e})")
+                ctx.checked()
+        if self.kind == "Anisotropic" and np.ndim(C) == 2:
+            # "axes rotated by Q yield the Q-rotated fourth-order tensor": the law read back must be the matrix that was
+            # entered (Voigt or Kelvin-Mandel), rotated as a fourth-order tensor by Q = [e1 e2 e1xe2] in dense numpy --
+            # evaluated on the matrices and axis pairs the histories hold, not over all of them
+            Cx = rotated_reference(np.array(self.p["C"], dtype=float), bool(self.p["voigt"]), self.p["axis1"], self.p["axis2"], self.cfg["dim"])
+            if not refs.maxabs(C - Cx) <= 1e-9 * scale:
+                raise Violation("law-not-the-rotated-tensor", f"{what}: C differs from the entered matrix rotated by Q = [e1 e2 e1 x e2] as a fourth-order tensor: max|diff| {refs.maxabs(C - Cx):.3e} (scale {scale:.3e})")
+            ctx.checked()
         return C, S
 
     def _check_observers(self, which, what):
